@@ -168,6 +168,7 @@ def run_harness(loaded: Loaded, ob, cfg):
     def run_path(ctx):
         interp.ctx = ctx
         interp.depth = 0
+        interp.callstack = []
         args = []
         fr = Frame({}, f.globs)
         for p in f.node.args.args:
@@ -179,7 +180,7 @@ def run_harness(loaded: Loaded, ob, cfg):
             interp.call(f, args, {})
         except PyRaise as pr:
             cls = pr.exc.cls.name
-            ctx.fail("no-escape", kind="escape", detail=f"uncaught {cls} in harness")
+            ctx.fail("no-escape", kind="escape", detail=f"uncaught {cls}{pr.exc.fields.get('args', '')!r:.200} in harness at {pr.where}")
 
     pcfg = cfg
     if "max_paths" in opts or "check_timeout_ms" in opts or "loop_unroll" in opts:
